@@ -1,6 +1,7 @@
 import Proofs.AnsiRaw
 import Proofs.AnsiSgr
 import Proofs.RawLineCallers
+import Proofs.Machine.RawIndependenceBytes
 /-!
 C08 — git's default colouring is ignored; moved-line and raw colours are preserved.
 
@@ -464,5 +465,182 @@ theorem truncate_commutes_strip_partial (U : Uni) {s : Bytes} (ts : List Tok) (h
   obtain ⟨h1, h2⟩ := truncate_fits U ts hwf dw tail fill hfit
   rw [h1, strip_tokens ts hwf]
   simp [Except.bind, strip_tokens ts hwf, h2]
+
+/-! ### The line state machine ignores the raw line as a whole (session 4, task T2)
+
+`Machine.run cfg ls` (DeltaModel/Machine.lean: `delta.rs` `consume`, every `handle_*`, the painter buffers)
+receives for every input line the stripped text and the raw line. The theorems below are about *whole runs*, for
+every configuration and every input, unbounded. Vocabulary (`Proofs/Machine/RawIndependence.lean`):
+`Machine.Agree l l'` — the two lines agree in everything but `raw` (same stripped text, same clusters, same
+per-line facts; decidable); `Machine.AgreeAll` — two inputs of the same length, line by line;
+`Machine.rawAt ls k` — the raw line of input line `k`; `Machine.RowRel ρ ρ' tab r r'` — same kind, same input
+index, and the same text, **or** a row of kind `.raw` (written by a handler whose style is `raw`, or passed
+through by `emit_line_unchanged`): each run shows the raw line of the row's own input line, plus the same pad
+(nothing, or the one blank of a box decoration), **or** a row of kind `.other` (text inside a hunk that is no hunk
+line): each run shows its own raw line with tabs expanded. -/
+
+open Machine in
+/-- **The machine depends on `raw_line` only where it is meant to.** Two inputs that agree line by line in
+everything but the raw line: both runs end in the same error (= Rust panic), or both succeed and their outputs are
+related row by row — same number of rows, same order, same kinds, same input indices, same text, except that the
+rows meant to carry the input colouring carry exactly the raw line of their own input line. -/
+theorem machine_ignores_raw_line (cfg : Cfg) {ls ls' : List L} (h : AgreeAll ls ls') :
+    ERel (fun m m' => RowsRel (rawAt ls) (rawAt ls') cfg.tab m.out m'.out) (run cfg ls) (run cfg ls') :=
+  run_rel cfg h
+
+/-- `AgreeAll` is needed and can be met: a removed line and the same line coloured by git. (If the stripped texts
+differ the rows differ; if a per-line fact differs — e.g. the commit regex — another handler claims the line.) -/
+example : Machine.AgreeAll
+    [{ raw := "-x".toList, text := "-x".toList, graphemes := [['-'], ['x']], commitRe := false, blame := false,
+       grep := 0, submodule := none }]
+    [{ raw := "\x1b[31m-x\x1b[m".toList, text := "-x".toList, graphemes := [['-'], ['x']], commitRe := false,
+       blame := false, grep := 0, submodule := none }] :=
+  .cons ⟨rfl, rfl, rfl, rfl, rfl, rfl⟩ .nil
+
+open Machine in
+/-- The same in elementary terms: the second run succeeds iff the first does; then row `i` of one run and row `i`
+of the other have the same kind and input index, and — unless the kind is `.raw` or `.other` — the same text. -/
+theorem machine_rows_independent_of_raw_line (cfg : Cfg) {ls ls' : List L} (h : AgreeAll ls ls') {m : M}
+    (e : run cfg ls = .ok m) :
+    ∃ m', run cfg ls' = .ok m' ∧ m'.out.length = m.out.length ∧
+      ∀ (i : Nat) (r : Row), m.out[i]? = some r → ∃ r' : Row, m'.out[i]? = some r' ∧ r'.kind = r.kind ∧ r'.src = r.src ∧
+        (r.kind ≠ .raw → r.kind ≠ .other → r'.text = r.text) := by
+  have hr := run_rel cfg h
+  rw [e] at hr
+  revert hr
+  cases e' : run cfg ls' <;> intro hr
+  · exact hr.elim
+  · rename_i m'
+    have hr' : RowsRel (rawAt ls) (rawAt ls') cfg.tab m.out m'.out := hr
+    refine ⟨m', rfl, hr'.length_eq, ?_⟩
+    clear hr e e'
+    generalize m.out = a at hr'
+    generalize m'.out = a' at hr'
+    induction hr' with
+    | nil => intro i r hi; simp at hi
+    | cons hrow _ ih =>
+      intro i r hi
+      cases i with
+      | zero =>
+        simp only [List.getElem?_cons_zero, Option.some.injEq] at hi
+        subst hi
+        refine ⟨_, rfl, hrow.kind, hrow.src, ?_⟩
+        intro h1 h2
+        rcases hrow.text with t | ⟨k, _⟩ | ⟨k, _⟩
+        · exact t
+        · exact absurd k h1
+        · exact absurd k h2
+      | succ j => simpa using ih j r (by simpa using hi)
+
+open Machine in
+/-- …and a run that fails (an error branch of the model = a panic of the code) fails identically: what the raw
+line looks like can neither cause nor prevent a crash of the state machine. -/
+theorem machine_error_independent_of_raw_line (cfg : Cfg) {ls ls' : List L} (h : AgreeAll ls ls') {e : String}
+    (he : run cfg ls = .error e) : run cfg ls' = .error e := by
+  have hr := run_rel cfg h
+  rw [he] at hr
+  revert hr
+  cases run cfg ls' <;> intro hr
+  · exact congrArg _ hr
+  · exact hr.elim
+
+open Machine in
+/-- The rows that do show the raw line show the raw line *of their own input line*: a `.raw` row is
+`raw_line ++ pad` (in both runs, with the same pad) or does not depend on the raw line at all (a file header that
+delta composes itself under a decorated raw `file-style`); a `.other` row is the raw line with tabs expanded. -/
+theorem machine_raw_rows_carry_own_line (cfg : Cfg) {ls ls' : List L} (h : AgreeAll ls ls') {m m' : M}
+    (e : run cfg ls = .ok m) (e' : run cfg ls' = .ok m') :
+    RowsRel (rawAt ls) (rawAt ls') cfg.tab m.out m'.out := by
+  have hr := run_rel cfg h
+  rw [e, e'] at hr
+  exact hr
+
+/-! ### A diff and every git colouring of it, whole runs (byte lines in, rows with their colour source out)
+
+`MachineRaw.runBytes` (DeltaModel/MachineRaw.lean): every line is ingested as `ingest_line_utf8` does
+(`line = strip_ansi_codes(raw_line)`, the per-line facts computed from the stripped line), the machine runs, and every
+hunk row is paired with the decision `maybe_raw_line` takes for its input line (`Ansi.hunkLineKeepsRaw` over the
+generated arms of `new_line_state`). The decoding of bytes and the fact functions are parameters. -/
+
+open MachineRaw Machine in
+/-- **Git's colouring is ignored by the whole machine.** For every configuration, every list of lines and every git
+colouring of it (SGR sequences inserted anywhere between characters, line by line): the coloured run ends in the same
+error as the plain run, or both succeed with the same number of rows in the same order, same kinds, same input
+indices and the same text on every row except `.raw` / `.other` rows, which show their own raw line. If moreover the
+decision of `maybe_raw_line` for the coloured line of every hunk row is the decision for the plain line (`hdef`:
+`git_default_colouring_ignored_any_gitconfig`, `configured_*_colouring_ignored`, `hunk_row_default_colour_source`
+below say when — git's built-in or configured colour on removed / added lines, none on unchanged lines), every row
+has the same colour source too: run(coloured) = run(plain) on every row. -/
+theorem machine_ignores_git_colouring (dec : Ansi.Bytes → Headers.Str) (facts : Headers.Str → Facts) (rc : RawCfg)
+    (cfg : Cfg) (combined : Bool) {plain coloured : List Ansi.Bytes} (hc : GitColouringAll plain coloured)
+    (hdef : ∀ rows, runBytes rc cfg combined dec facts plain = .ok rows → ∀ p ∈ rows,
+      rowKeepsRaw rc cfg combined (bytesAt coloured) p.1 = p.2) :
+    ERel (PairsRel (decAt dec plain) (decAt dec coloured) cfg.tab)
+      (runBytes rc cfg combined dec facts plain) (runBytes rc cfg combined dec facts coloured) :=
+  runBytes_git dec facts rc cfg combined hc hdef
+
+/-- `GitColouringAll` is met by `-a` / `+b` coloured as git does (`ESC[31m-aESC[m`, `ESC[32m+ESC[m` `ESC[32mb`). -/
+example : MachineRaw.GitColouringAll [[0x2d, 0x61], [0x2b, 0x62]]
+    [[0x1b, 0x5b, 0x33, 0x31, 0x6d, 0x2d, 0x61, 0x1b, 0x5b, 0x6d],
+     [0x1b, 0x5b, 0x33, 0x32, 0x6d, 0x2b, 0x1b, 0x5b, 0x6d, 0x1b, 0x5b, 0x33, 0x32, 0x6d, 0x62]] :=
+  .cons (.sgr [0x33, 0x31] ⟨by decide, by decide⟩
+      (.chr [0x2d] (.ascii _ (by decide)) (by decide) (.chr [0x61] (.ascii _ (by decide)) (by decide)
+        (.sgr [] ⟨by simp, by decide⟩ .nil))))
+    (.cons (.sgr [0x33, 0x32] ⟨by decide, by decide⟩
+      (.chr [0x2b] (.ascii _ (by decide)) (by decide) (.sgr [] ⟨by simp, by decide⟩
+        (.sgr [0x33, 0x32] ⟨by decide, by decide⟩ (.chr [0x62] (.ascii _ (by decide)) (by decide) .nil))))) .nil)
+
+open MachineRaw in
+/-- When `hdef` holds, 1: under the default options (no word-diff caller, no raw hunk-line style), for every
+gitconfig, unified and combined diffs, with or without inspection — a removed-line row whose input line starts with
+git's `ESC[31m` and an added-line row whose line starts with `ESC[32m` get their colours from delta. -/
+theorem hunk_row_default_colour_source (rc : RawCfg) (hw : rc.wordDiff = false) (cfg : Machine.Cfg)
+    (hm : cfg.minusStyle.isRaw = false) (hp : cfg.plusStyle.isRaw = false) (combined : Bool)
+    (rawAt : Nat → Ansi.Bytes) (r : Machine.Row) (rest : Ansi.Bytes) :
+    (r.kind = .minus → rawAt r.src = [0x1b, 0x5b, 0x33, 0x31, 0x6d] ++ rest →
+      rowKeepsRaw rc cfg combined rawAt r = some false) ∧
+    (r.kind = .plus → rawAt r.src = [0x1b, 0x5b, 0x33, 0x32, 0x6d] ++ rest →
+      rowKeepsRaw rc cfg combined rawAt r = some false) := by
+  obtain ⟨h1, h2⟩ := git_default_colouring_ignored_any_gitconfig rc.inspect (isRawOf cfg) hm hp rc.git combined rest
+  constructor
+  · intro hk hr; simp only [rowKeepsRaw, hk, prefixCharOf, hr, hw]; exact h1
+  · intro hk hr; simp only [rowKeepsRaw, hk, prefixCharOf, hr, hw]; exact h2
+
+open MachineRaw in
+/-- When `hdef` holds, 2: a hunk row whose input line is not coloured at all (it starts with a character — the plain
+diff, and git's unchanged lines) gets its colours from delta, whatever the row kind. Without `hz` (a raw
+`zero-style`) or with a word-diff caller the line is kept raw: `raw_style_keeps_raw_line`, `word_diff_keeps_raw_line`. -/
+theorem hunk_row_uncoloured_colour_source (rc : RawCfg) (hw : rc.wordDiff = false) (cfg : Machine.Cfg)
+    (hm : cfg.minusStyle.isRaw = false) (hz : cfg.zeroStyle.isRaw = false) (hp : cfg.plusStyle.isRaw = false)
+    (combined : Bool) (rawAt : Nat → Ansi.Bytes) (r : Machine.Row) (c : Ansi.Bytes) (hc : IsChar c) (hne : c ≠ [0x1b])
+    (rest : Ansi.Bytes) (hr : rawAt r.src = c ++ rest) (hk : r.kind = .minus ∨ r.kind = .zero ∨ r.kind = .plus) :
+    rowKeepsRaw rc cfg combined rawAt r = some false := by
+  obtain ⟨a1, a2, a3, _⟩ := raw_line_arms_table combined
+  rcases hk with hk | hk | hk
+  · simp only [rowKeepsRaw, hk, prefixCharOf, hr, hw]
+    rw [hunkLineKeepsRaw_of_armOk a1, show isRawOf cfg .minus = false from hm, uncoloured_line_not_kept_raw _ c hc hne]
+  · simp only [rowKeepsRaw, hk, prefixCharOf, hr, hw]
+    rw [hunkLineKeepsRaw_of_armOk a3, show isRawOf cfg .zero = false from hz, uncoloured_line_not_kept_raw _ c hc hne]
+  · simp only [rowKeepsRaw, hk, prefixCharOf, hr, hw]
+    rw [hunkLineKeepsRaw_of_armOk a2, show isRawOf cfg .plus = false from hp, uncoloured_line_not_kept_raw _ c hc hne]
+
+open MachineRaw in
+/-- …and what is *not* ignored stays visible through the composition: with inspection on, a removed-line row whose
+input line starts with another SGR sequence (moved-line colours) is painted with the styles parsed from its raw line
+exactly when that style equals neither git's built-in nor the configured minus style. -/
+theorem hunk_row_moved_colour_source (rc : RawCfg) (hw : rc.wordDiff = false) (hi : rc.inspect = true)
+    (cfg : Machine.Cfg) (hm : cfg.minusStyle.isRaw = false) (hp : cfg.plusStyle.isRaw = false) (combined : Bool)
+    (rawAt : Nat → Ansi.Bytes) (r : Machine.Row) (hk : r.kind = .minus) (body : Ansi.Bytes) (hb : SgrBody body)
+    (rest : Ansi.Bytes) (hr : rawAt r.src = 0x1b :: 0x5b :: (body ++ 0x6d :: rest)) :
+    ∃ ps, csiKind body 0x6d = .sgr ps ∧ rowKeepsRaw rc cfg combined rawAt r =
+      some (!(styleEq (sgrToStyle ps) gitDefaultMinus || styleEq (sgrToStyle ps) (configGitMinusStyle rc.git))) := by
+  obtain ⟨ps, h1, h2, _⟩ := moved_line_kept_raw_any_gitconfig (isRawOf cfg) hm hp rc.git combined body hb rest
+  exact ⟨ps, h1, by simp only [rowKeepsRaw, hk, prefixCharOf, hr, hw, hi]; exact h2⟩
+
+/-- The places where the state machine's source reads the raw line are the ones the model was written against
+(`Generated.rawLineUses`: every function of src/delta.rs and src/handlers/*.rs that mentions an identifier ending in
+`raw_line`, with the number of mentions, regenerated on every run): a handler that starts to consult the raw line — or
+a new consumer of it — changes the table. -/
+theorem raw_line_use_inventory : Generated.rawLineUses = MachineRaw.modelledRawLineUses := by decide
 
 end C08
